@@ -4,7 +4,9 @@ T = "github.com/agglayer/aggkit/tree."
 B = "github.com/agglayer/aggkit/bridgesync."
 OBLIGATIONS = []
 for ml, tiers in ((0, ("quick", "thorough")), (1, ("quick", "thorough")), (32, ("quick", "thorough")), (33, ("quick", "thorough")),
-                  (2, ("thorough",)), (31, ("thorough",)), (64, ("thorough",)), (100, ("thorough",)), (200, ("thorough",))):
+                  (20, ("quick", "thorough")), (31, ("quick", "thorough")), (64, ("quick", "thorough")), (65, ("quick", "thorough")),
+                  (2, ("thorough",)), (4, ("thorough",)), (63, ("thorough",)), (96, ("thorough",)), (100, ("thorough",)), (136, ("thorough",)), (137, ("thorough",)),
+                  (200, ("thorough",))):
     OBLIGATIONS.append(dict(
         name="C01.a leaf: Bridge.Hash == contract getLeafValue, metadata length %d" % ml, harness=B + "ZZVerif_C01_Leaf", params={"ML": ml},
         tiers=tiers, reach=["end"],
